@@ -120,6 +120,16 @@ func (k *Keeper) WithChainID(ctx sdk.Context) {
 	k.eip155ChainID = chainID
 }
 
+// WithChainIDString sets the EIP155 chain id from the chain id the node was started with, so that
+// transactions checked before the first BeginBlock of this process see the same signer as later ones.
+func (k *Keeper) WithChainIDString(chainID string) {
+	id, err := haqqtypes.ParseChainID(chainID)
+	if err != nil {
+		return
+	}
+	k.eip155ChainID = id
+}
+
 // ChainID returns the EIP155 chain ID for the EVM context
 func (k Keeper) ChainID() *big.Int {
 	return k.eip155ChainID
